@@ -33,7 +33,7 @@ theorem infoRowsList_eq (w : World) (j : Nat) (l : List Entry) (acc : Int) :
   | nil => rfl
   | cons x xs ih =>
     unfold infoRowsList
-    simp only [cum_cons, List.filter_cons, tie_infoTimeLeft]
+    simp only [cum_cons, List.filter_cons, tie_infoTimeLeft, tie_infoSkip]
     by_cases hd : (!x.c.fp && w.dead.contains x.c.owner) = true
     · simp only [hd, if_true, Bool.not_true, Bool.false_eq_true, if_false]
       exact ih _
